@@ -590,6 +590,35 @@ def r05_5(ctx):
             ctx.check(R, cs == [inner + name], 'wrapper:' + name, 'Set::%s must delegate to Fst::%s (found %s)' % (name, name, cs), fn=f)
 
 
+def r05_7(ctx):
+    """every stream handed to an operation builder takes part in the operation: add / push / extend / from_iter hand each argument
+    (each item of the iterator) on, down to the vector of streams"""
+    R = ctx.rule('R05.7', 'registration: every stream given to an OpBuilder (add / push / extend / from_iter) reaches the list of input streams', floor=12)
+    lib = ctx.lib
+    from rules import cli
+    fns = [f for f in lib.fn_list if f.kind != 'Closure' and not f.from_expansion and 'OpBuilder' in f.path and f.path.rsplit('::', 1)[-1] in ('add', 'push', 'extend', 'from_iter')]
+    if len(fns) < 12:
+        ctx.missing(R, 'anchor:registration', 'only %d registration methods of the operation builders found' % len(fns))
+    for f in fns:
+        name = f.path.rsplit('::', 1)[-1]
+        lost = cli.params_handed_on(f)
+        for i, nm in lost:
+            ctx.violation(R, 'arg:%s' % f.path, '%s takes `%s` and hands it to nothing on some path: that stream silently does not take part in the operation' % (name, nm), fn=f)
+        if not lost:
+            ctx.ok(R, 'arg:' + f.path, None, fn=f)
+        if f.loops():
+            ok, bad, n = cli.loop_items(f)
+            for h in sorted(bad):
+                ctx.violation(R, 'item:%s' % f.path, '%s iterates over the streams it is given and drops one without registering it' % name, fn=f, at=f.line_of(h))
+            for h in sorted(ok - bad):
+                ctx.ok(R, 'item:%s@%s' % (f.path, h), None, fn=f)
+    # the innermost push stores into the vector the heap is later built from
+    base = lib.fn("raw::ops::OpBuilder::<'f>::push")
+    if base is not None:
+        stores = [t for _, t in base.calls() if (base.callee(t) or '').endswith('Vec::<T, A>::push') and arg_loc(base, t, 0) == (1, 'streams')]
+        ctx.check(R, len(stores) == 1, 'raw-push', 'the raw OpBuilder::push must append exactly one boxed stream to its stream list (found %d)' % len(stores), fn=base)
+
+
 def r05_6(ctx):
     R = ctx.rule('R05.6', 'wrapper delegation for OpBuilder methods and result streams; the set wrapper injects zero outputs', floor=12)
     lib = ctx.lib
@@ -643,6 +672,7 @@ def run(ctx):
         ctx.missing('R05.1', 'anchor:heap-primitives', 'heap primitives not found: %s' % [q.rsplit('::', 1)[-1] for q in prim_missing])
         ctx.step(r05_5, ctx)
         ctx.step(r05_6, ctx)
+        ctx.step(r05_7, ctx)
         return
     for name, path in OPS.items():
         f = lib.fn(path)
@@ -667,3 +697,4 @@ def run(ctx):
     ctx.step(r05_3, ctx)
     ctx.step(r05_5, ctx)
     ctx.step(r05_6, ctx)
+    ctx.step(r05_7, ctx)
